@@ -70,6 +70,10 @@ MonInit(S) ==
     rounds    |-> [p \in {} |-> [quiet |-> FALSE, nsb |-> 0, promoted |-> FALSE]],
     holder    |-> 0,                       \* pid that acquired the submitter role (0 = nobody)
     hooks     |-> <<>>,                    \* hook events seen: <<which, b, pos>>
+    marker    |-> FALSE,                   \* submitter.lock exists (marker events)
+    sqfail    |-> {},                      \* pids whose scheduler query failed
+    atPromo   |-> [p \in {} |-> <<>>],     \* pid -> job-status part of the status right after its promotion
+    otherFaults |-> FALSE,                 \* a fault other than a failed scheduler query was injected
     rerun     |-> {},                      \* jobs a resubmission may rerun (epoch > 0)
     ended     |-> FALSE ]
 
@@ -103,6 +107,9 @@ BatchBlockedOk(S, jobs, rows) ==
 BatchHandoverOk(S, jobs, hb, rows) ==
   \A k \in 1..Len(jobs) : (BlkOf(S, jobs[k]) \ rows) \subseteq ToSet(hb[k])
 
+CfgPart(s) == <<s.sub, s.nsub, s.ndone, s.complete, s.canceled>>
+JsPart(s) == <<s.st, s.rem, s.ids, s.bidx>>
+
 BatchChecks(S, m, e) ==
   LET jobs == e.jobs
       rows == ToSet(e.rows)
@@ -128,10 +135,14 @@ OnExit(S, m, e) ==
   LET p == e.pid
       isRound == p \in DOMAIN m.rounds
       m1 == [m EXCEPT !.alive = @ \ {p}, !.holder = IF @ = p THEN 0 ELSE @]
-  IN \* C05: a recovery round started at quiescence hands over a batch or completes
-     Check(m1, "QuiescentRoundProgress",
-           isRound /\ m.rounds[p].quiet /\ m.rounds[p].promoted /\ FaultFree(m) /\ ~AnyDry(S),
-           m.okSbatch > m.rounds[p].nsb \/ m.st.complete)
+      \* C05: a recovery round started at quiescence hands over a batch or completes
+      m2 == Check(m1, "QuiescentRoundProgress",
+                  isRound /\ m.rounds[p].quiet /\ m.rounds[p].promoted /\ FaultFree(m) /\ ~AnyDry(S),
+                  m.okSbatch > m.rounds[p].nsb \/ m.st.complete)
+      \* C11: a round whose scheduler query failed leaves no trace: role given back, no marker, job status as it found it
+      m3 == Check(m2, "SqueueFailureHarmless", p \in m.sqfail /\ p \in DOMAIN m.atPromo /\ ~m.otherFaults,
+                  m.st.sub = "" /\ ~m.marker /\ JsPart(m.st) = m.atPromo[p])
+  IN m3
 
 OnCfgBatch(S, m, e) ==
   LET b == e.b
@@ -228,9 +239,6 @@ OnCollected(S, m, e) ==
       m2 == Check(m1, "ReportedRowsReal", TRUE, rs \subseteq m.intents)
   IN [m2 EXCEPT !.reported = @ \cup rs]
 
-CfgPart(s) == <<s.sub, s.nsub, s.ndone, s.complete, s.canceled>>
-JsPart(s) == <<s.st, s.rem, s.ids, s.bidx>>
-
 OnStatus(S, m, e) ==
   LET J == JobsOf(S)
       prev == m.st
@@ -288,7 +296,8 @@ OnPromote(S, m, e) ==
       m3 == IF isCancel THEN [m2 EXCEPT !.activeAtCancel = {b \in DOMAIN m.bstate : m.bstate[b] \in {"pending", "running"}},
                                         !.cleanAtCancel = FaultFree(m)]
             ELSE m2
-  IN IF e.ok /\ e.pid \in DOMAIN m3.rounds THEN [m3 EXCEPT !.rounds[e.pid].promoted = TRUE] ELSE m3
+      m4 == IF e.ok /\ m.hasSt THEN [m3 EXCEPT !.atPromo = (e.pid :> JsPart(m.st)) @@ @] ELSE m3
+  IN IF e.ok /\ e.pid \in DOMAIN m4.rounds THEN [m4 EXCEPT !.rounds[e.pid].promoted = TRUE] ELSE m4
 
 Class(r) == IF r[3] = "canceled" THEN "canceled" ELSE IF r[2] = 0 THEN "successful" ELSE "failed"
 
@@ -337,13 +346,16 @@ OnCop(S, m, e) ==
   IN [m4 EXCEPT !.holder = IF e.ok THEN e.pid
                            ELSE IF e.op = "demote" /\ e.exc = "" /\ @ = e.pid THEN 0 ELSE @]
 
-OnFault(S, m, e) == [m EXCEPT !.faulty = TRUE]
-OnSqueue(S, m, e) == IF e.ok THEN m ELSE [m EXCEPT !.faulty = TRUE]
+OnFault(S, m, e) == [m EXCEPT !.faulty = TRUE, !.otherFaults = TRUE]
+OnNodeKill(S, m, e) == [m EXCEPT !.nodefault = TRUE]
+OnMarker(S, m, e) == [m EXCEPT !.marker = e.on]
+OnSqueue(S, m, e) == IF e.ok THEN m ELSE [m EXCEPT !.faulty = TRUE, !.sqfail = @ \cup {e.pid}]
 OnScancel(S, m, e) == [m EXCEPT !.scancelled = @ \cup {e.b}]
 
 OnEnd(S, m, e) ==
   LET \* C05 (bounded form of eventual completion on the real code)
-      m1 == Check(m, "CompletesAfterRecovery", e.full /\ S.mode = "hpc" /\ ~m.faulty /\ ~AnyDry(S) /\ m.hasSt, m.st.complete)
+      m1 == Check(m, "CompletesAfterRecovery",
+                  e.full /\ S.mode = "hpc" /\ (~m.faulty \/ ~m.otherFaults) /\ ~AnyDry(S) /\ m.hasSt, m.st.complete)
       m2 == Check(m1, "ActiveBatchesCancelled", m.cancelSeen /\ m.cleanAtCancel, m.activeAtCancel \subseteq m.scancelled)
       \* C07: the dry run of a scenario writes the same first-round batches as the real run of the same scenario
       m3 == Check(m2, "DryRunSame", S.hasfirst, m.cfgseq = S.firstround)
@@ -368,6 +380,8 @@ MonStep(S, m0, e) ==
     [] e.e = "squeue"    -> OnSqueue(S, m, e)
     [] e.e = "scancel"   -> OnScancel(S, m, e)
     [] e.e = "cop"       -> OnCop(S, m, e)
+    [] e.e = "nodekill"  -> OnNodeKill(S, m, e)
+    [] e.e = "marker"    -> OnMarker(S, m, e)
     [] e.e \in {"kill", "fault"} -> OnFault(S, m, e)     \* injected faults only; a lock timeout or a broken marker is
                                                          \* what the environment does with markers JADE itself left behind
     [] e.e = "end"       -> OnEnd(S, m, e)
@@ -394,7 +408,10 @@ ClausesOf(c) ==
                      "VersionFilesAgree", "SubmittedHasNoBlockers", "VersionsNeverDecrease", "VersionsIncreaseWithChange",
                      "CountersMonotone", "StateAdvances", "BlockersShrink", "CompleteSticky", "BatchIndexMonotone"}
     [] c = "C10" -> {"OneSubmitter", "PromotionRefusedWhileHeld", "PromotionGrantedOnlyWhenFree", "StaleWriteRejected"}
-    [] c = "C12" -> {"MissingExact", "NoFabricatedResult", "FinishedKeepResults", "ResultKnownJob", "ResultStatusKnown", "OneResultPerJob"}
+    [] c = "C11" -> {"OnePlacement", "OneLaunch", "StartAfterBlockers", "RowsNeverLost", "SqueueFailureHarmless", "FreshBatchIndex",
+                     "CanceledNeverRuns"}
+    [] c = "C12" -> {"MissingExact", "NoFabricatedResult", "FinishedKeepResults", "ResultKnownJob", "ResultStatusKnown", "OneResultPerJob",
+                     "StartAfterBlockers", "CompletesAfterRecovery", "OneLaunch", "CanceledNeverRuns"}
     [] c = "C14" -> {"NoSbatchAfterCancel", "ActiveBatchesCancelled"}
     [] c = "C20" -> {"TallyPartition"}
     [] OTHER -> {}
